@@ -17,6 +17,8 @@ GenNext == /\ Len(hist) < GenLen
            /\ \E c \in Ctx :
                \/ \E k \in 1..NKw : New(c, k) /\ hist' = Append(hist, Ev("New", c, k, ""))
                \/ Enter(c) /\ hist' = Append(hist, Ev("Enter", c, 0, ""))
+               \/ \E k \in 1..NKw : Prebuild(c, k) /\ hist' = Append(hist, Ev("Prebuild", c, k, ""))
+               \/ EnterPre(c) /\ hist' = Append(hist, Ev("EnterPre", c, 0, ""))
                \/ \E how \in {"normal", "exception"} :
                      Exit(c, how) /\ hist' = Append(hist, Ev("Exit", c, 0, how))
                \/ CreateInv(c) /\ hist' = Append(hist, Ev("CreateInv", c, 0, ""))
